@@ -151,7 +151,11 @@ func (tc *TypeCtx) StructOf(t types.Type) *StructInfo {
 		fmt.Fprintf(&sb, " (%s %s)", f.Acc, f.Sort)
 	}
 	sb.WriteString("))))")
-	tc.sc.Declare("sort:"+name, sb.String())
+	// struct sorts are declared at render time from this process-wide registry (heap keys, and
+	// with them sorts, are shared between the per-function scripts and the effect analysis)
+	structDeclMu.Lock()
+	structDecls[name] = sb.String()
+	structDeclMu.Unlock()
 	return si
 }
 
